@@ -276,7 +276,7 @@ func (a *Operator) useHexEscapes(input string) string {
 func (o *Operator) dontUseFlagsForMetaCharacters(input string) string {
 	result := input
 	flagsStartRegexp := regexp.MustCompile(`\(\?[-misU]+\)`)
-	result = flagsStartRegexp.ReplaceAllLiteralString(result, "")
+	result = removeUnescapedMatches(flagsStartRegexp, result)
 
 	flagGroupStartRegexp := regexp.MustCompile(`\(\?[-misU]+:`)
 	searchStart := 0
@@ -296,6 +296,30 @@ func (o *Operator) dontUseFlagsForMetaCharacters(input string) string {
 		searchStart = groupStart
 	}
 	return result
+}
+
+// Removes all matches of `pattern` whose first character is not escaped.
+// `\(?i)` is an optional literal parenthesis followed by `i)`, not a flag group.
+func removeUnescapedMatches(pattern *regexp.Regexp, input string) string {
+	var sb strings.Builder
+	position := 0
+	for {
+		location := pattern.FindStringIndex(input[position:])
+		if len(location) == 0 {
+			break
+		}
+		matchStart := position + location[0]
+		matchEnd := position + location[1]
+		if utils.IsEscaped(input, matchStart) {
+			sb.WriteString(input[position : matchStart+1])
+			position = matchStart + 1
+			continue
+		}
+		sb.WriteString(input[position:matchStart])
+		position = matchEnd
+	}
+	sb.WriteString(input[position:])
+	return sb.String()
 }
 
 // Remove groups like `...(?-s:...)...`.
